@@ -59,6 +59,9 @@ def comparison_shape(g, fb, scope):
         if f["k"] == "closure" and len(f["params"]) == 1:
             pn = rx.closure_params(f)[0].get("name")
             chain, args = rx.ctor_chain(rx.closure_body(f))
+            if chain and len(chain) == 2 and chain[1].split("::")[-1] in ("from", "into") and args is not None and len(args) == 1:
+                # Comparison::X(T::from(v)) — the conversion is the `into()` of the other spelling
+                chain = chain[:1]
             if chain and args is not None and len(args) == 1:
                 ctor = rx.canon_path(chain[-1], scope)
                 a0 = args[0]
